@@ -91,4 +91,154 @@ theorem negate_val (a : Fe) (m : Nat) (ha : a.mag m) (hm : m ≤ 31) :
   rw [l0, l1, l2, l3, l4]
   omega
 
+theorem and_eq_M (a b : Nat) (ha : a < 4503599627370496) (hb : b < 4503599627370496) :
+    (a &&& b = 4503599627370495) ↔ (a = 4503599627370495 ∧ b = 4503599627370495) := by
+  constructor
+  · intro h
+    have h1 : a &&& b ≤ a := Nat.and_le_left
+    have h2 : a &&& b ≤ b := Nat.and_le_right
+    omega
+  · rintro ⟨rfl, rfl⟩
+    exact Nat.and_self _
+
+theorem or_one_le (x : Nat) (h : x ≤ 1) : x ||| 1 = 1 := by
+  have : x = 0 ∨ x = 1 := by omega
+  rcases this with h | h <;> subst h <;> decide
+
+theorem ge_P_limbs (a0 a1 a2 a3 a4 : Nat) (b0 : a0 < 2^52) (b1 : a1 < 2^52) (b2 : a2 < 2^52) (b3 : a3 < 2^52)
+    (b4 : a4 < 2^48)
+    (hV : a0 + a1 * 2^52 + a2 * 2^104 + a3 * 2^156 + a4 * 2^208 ≥
+      115792089237316195423570985008687907853269984665640564039457584007908834671663) :
+    a4 = 281474976710655 ∧ a3 = 4503599627370495 ∧ a2 = 4503599627370495 ∧ a1 = 4503599627370495
+      ∧ a0 ≥ 4503595332402223 := by
+  have h4 : a4 = 281474976710655 := by omega
+  subst h4
+  have h3 : a3 = 4503599627370495 := by omega
+  subst h3
+  have h2 : a2 = 4503599627370495 := by omega
+  subst h2
+  have h1 : a1 = 4503599627370495 := by omega
+  subst h1
+  refine ⟨rfl, rfl, rfl, rfl, ?_⟩
+  omega
+
+/-- the final reduction pass of Normalize, as equations between the intermediate words -/
+theorem final_pass (c0 c1 c2 c3 c4 x d0 d1 e0 d2 e1 d3 e2 d4 e3 e4 : Nat)
+    (b0 : c0 < 2^52) (b1 : c1 < 2^52) (b2 : c2 < 2^52) (b3 : c3 < 2^52) (b4 : c4 < 2^48 + 128)
+    (hx : (x = 1 ∧ c0 + c1 * 2^52 + c2 * 2^104 + c3 * 2^156 + c4 * 2^208 ≥
+              115792089237316195423570985008687907853269984665640564039457584007908834671663)
+        ∨ (x = 0 ∧ c0 + c1 * 2^52 + c2 * 2^104 + c3 * 2^156 + c4 * 2^208 <
+              115792089237316195423570985008687907853269984665640564039457584007908834671663))
+    (q0 : d0 = (c0 + x * 4294968273 % 18446744073709551616) % 18446744073709551616)
+    (q1 : d1 = (c1 + d0 / 2^52) % 18446744073709551616)
+    (q2 : e0 = d0 % 4503599627370496)
+    (q3 : d2 = (c2 + d1 / 2^52) % 18446744073709551616)
+    (q4 : e1 = d1 % 4503599627370496)
+    (q5 : d3 = (c3 + d2 / 2^52) % 18446744073709551616)
+    (q6 : e2 = d2 % 4503599627370496)
+    (q7 : d4 = (c4 + d3 / 2^52) % 18446744073709551616)
+    (q8 : e3 = d3 % 4503599627370496)
+    (q9 : e4 = d4 % 281474976710656) :
+    e0 + e1 * 2^52 + e2 * 2^104 + e3 * 2^156 + e4 * 2^208 + x *
+        115792089237316195423570985008687907853269984665640564039457584007908834671663
+      = c0 + c1 * 2^52 + c2 * 2^104 + c3 * 2^156 + c4 * 2^208
+    ∧ e0 + e1 * 2^52 + e2 * 2^104 + e3 * 2^156 + e4 * 2^208 <
+        115792089237316195423570985008687907853269984665640564039457584007908834671663
+    ∧ e0 < 2^52 ∧ e1 < 2^52 ∧ e2 < 2^52 ∧ e3 < 2^52 ∧ e4 < 2^48 := by
+  rcases hx with ⟨hx, hV⟩ | ⟨hx, hV⟩
+  · subst hx
+    have p0 : d0 = c0 + 4294968273 := by omega
+    have p1 : d1 = c1 + d0 / 2^52 := by omega
+    have p2 : d2 = c2 + d1 / 2^52 := by omega
+    have p3 : d3 = c3 + d2 / 2^52 := by omega
+    have p4 : d4 = c4 + d3 / 2^52 := by omega
+    have s : d0 % 4503599627370496 + d1 % 4503599627370496 * 2^52 + d2 % 4503599627370496 * 2^104
+        + d3 % 4503599627370496 * 2^156 + d4 * 2^208 = c0 + c1 * 2^52 + c2 * 2^104 + c3 * 2^156 + c4 * 2^208 + 4294968273 := by
+      omega
+    have hd4 : d4 ≥ 281474976710656 ∧ d4 < 2 * 281474976710656 := by omega
+    omega
+  · subst hx
+    have b4' : c4 < 2^48 := by omega
+    have p0 : d0 = c0 := by omega
+    have p1 : d1 = c1 := by omega
+    have p2 : d2 = c2 := by omega
+    have p3 : d3 = c3 := by omega
+    have p4 : d4 = c4 := by omega
+    subst p0 p1 p2 p3 p4
+    omega
+theorem normalize_val (r : Fe) (h : r.mag 32) :
+    (normalize r).val = r.val % P ∧ (normalize r).canon := by
+  unfold Fe.mag at h
+  obtain ⟨h0, h1, h2, h3, h4⟩ := h
+  unfold normalize Fe.canon Fe.val
+  simp -zeta only [and_M52, and_M48, Nat.shiftRight_eq_div_pow]
+  extract_lets t0 t1 t2 t3 t4 x1 t4b t0b t1b t0c t2b t1c m2 t3b t2c m3 t4c t3c m4 x2 cond x3 x4 t0d t1d t0e t2d t1e t3d t2e t4d t3e t4e r0 r1 r2 r3 r4
+  dsimp only
+  -- first pass: no 64-bit overflow, carries are small
+  have hx1 : x1 ≤ 63 := by omega
+  have e_t0b : t0b = t0 + x1 * 4294968273 := by omega
+  have e_t1b : t1b = t1 + t0b / 2^52 := by omega
+  have e_t2b : t2b = t2 + t1b / 2^52 := by omega
+  have e_t3b : t3b = t3 + t2b / 2^52 := by omega
+  have e_t4c : t4c = t4b + t3b / 2^52 := by omega
+  have b_t4c : t4c < 2^48 + 128 := by omega
+  -- value after the first pass
+  have hV1 : t0 + t1 * 2^52 + t2 * 2^104 + t3 * 2^156 + t4 * 2^208
+      = (t0c + t1c * 2^52 + t2c * 2^104 + t3c * 2^156 + t4c * 2^208) + x1 * P := by
+    rw [P_eq]; omega
+  -- bounds after the first pass
+  have b0 : t0c < 2^52 := by omega
+  have b1 : t1c < 2^52 := by omega
+  have b2 : t2c < 2^52 := by omega
+  have b3 : t3c < 2^52 := by omega
+  have hx2 : x2 ≤ 1 := by omega
+  -- the condition says exactly: the low 256 bits are ≥ p
+  have hm3 : m3 < 4503599627370496 := by
+    have : m3 ≤ m2 := Nat.and_le_left
+    omega
+  have hcond : cond = true ↔ (t4c = 281474976710655 ∧ t1c = 4503599627370495 ∧ t2c = 4503599627370495
+      ∧ t3c = 4503599627370495 ∧ t0c ≥ 4503595332402223) := by
+    simp only [cond, m4, m3, m2, Bool.and_eq_true, decide_eq_true_eq]
+    rw [and_eq_M _ _ (by simpa [m3, m2] using hm3) (by omega), and_eq_M _ _ (by omega) (by omega)]
+    constructor
+    · rintro ⟨⟨a, ⟨b, c⟩, d⟩, e⟩; exact ⟨a, b, c, d, e⟩
+    · rintro ⟨a, b, c, d, e⟩; exact ⟨⟨a, ⟨b, c⟩, d⟩, e⟩
+  have hx3 : x3 = 1 := or_one_le x2 hx2
+  let V1 := t0c + t1c * 2^52 + t2c * 2^104 + t3c * 2^156 + t4c * 2^208
+  have bV1 : t4c < 2^48 + 128 := b_t4c
+  have hx4 : (x4 = 1 ∧ V1 ≥ 115792089237316195423570985008687907853269984665640564039457584007908834671663)
+      ∨ (x4 = 0 ∧ V1 < 115792089237316195423570985008687907853269984665640564039457584007908834671663) := by
+    by_cases hc : cond = true
+    · have e4 : x4 = 1 := by simp only [x4, hc, if_true, hx3]
+      obtain ⟨q4, q1, q2, q3, q0⟩ := hcond.mp hc
+      left; refine ⟨e4, ?_⟩
+      show t0c + t1c * 2^52 + t2c * 2^104 + t3c * 2^156 + t4c * 2^208 ≥ _
+      rw [q4, q1, q2, q3]
+      clear_value t0c
+      omega
+    · have e4 : x4 = x2 := by simp only [x4, hc]; simp
+      rw [e4]
+      by_cases h48 : t4c < 2^48
+      · right
+        refine ⟨by omega, ?_⟩
+        apply Classical.byContradiction
+        intro hge
+        have hge' : t0c + t1c * 2^52 + t2c * 2^104 + t3c * 2^156 + t4c * 2^208 ≥
+            115792089237316195423570985008687907853269984665640564039457584007908834671663 := Nat.le_of_not_lt hge
+        obtain ⟨g4, g3, g2, g1, g0⟩ := ge_P_limbs t0c t1c t2c t3c t4c b0 b1 b2 b3 h48 hge'
+        exact hc (hcond.mpr ⟨g4, g1, g2, g3, g0⟩)
+      · left
+        refine ⟨by omega, ?_⟩
+        show t0c + t1c * 2^52 + t2c * 2^104 + t3c * 2^156 + t4c * 2^208 ≥ _
+        clear_value t0c t1c t2c t3c t4c
+        omega
+  have fin := final_pass t0c t1c t2c t3c t4c x4 t0d t1d t0e t2d t1e t3d t2e t4d t3e t4e b0 b1 b2 b3 bV1 hx4
+    rfl rfl rfl rfl rfl rfl rfl rfl rfl rfl
+  obtain ⟨fv, flt, f0, f1, f2, f3, f4⟩ := fin
+  refine ⟨?_, f0, f1, f2, f3, f4⟩
+  show t0e + t1e * 2^52 + t2e * 2^104 + t3e * 2^156 + t4e * 2^208 = (t0 + t1 * 2^52 + t2 * 2^104 + t3 * 2^156 + t4 * 2^208) % P
+  rw [hV1, ← fv, P_eq]
+  generalize t0e + t1e * 2^52 + t2e * 2^104 + t3e * 2^156 + t4e * 2^208 = V2 at *
+  rw [Nat.add_assoc, ← Nat.add_mul, Nat.add_mul_mod_self_right, Nat.mod_eq_of_lt flt]
+
 end GocoinV.C08
